@@ -57,6 +57,21 @@ def plan(pid, tier, seed):
     if pid == "C17":
         return {"jobs": world_jobs(["query"], tier, seed, 250, 40000), "trusted_base": WORLD_TRUST,
                 "assumptions": ["world ids are unique (global counter behind a mutex)"]}
+    CONT_TRUST = WORLD_TRUST + ["hooked arena/fill dumps (verif_dump) of EntityBuilder(Clone), BuiltEntityClone, CommandBuffer, ColumnBatchBuilder"]
+    if pid == "C13":
+        return {"jobs": world_jobs(["containers"], tier, seed, 250, 40000, length=80, also_release=True), "release": True,
+                "trusted_base": CONT_TRUST}
+    if pid == "C11":
+        return {"jobs": world_jobs(["containers"], tier, seed, 250, 40000, length=80), "trusted_base": CONT_TRUST}
+    if pid == "C12":
+        return {"jobs": world_jobs(["containers", "batch"], tier, seed, 200, 40000, length=80, also_release=True), "release": True,
+                "trusted_base": CONT_TRUST}
+    if pid == "C04":
+        return {"jobs": world_jobs(["containers", "mixed", "query"], tier, seed, 150, 30000, length=80, also_release=True), "release": True,
+                "trusted_base": CONT_TRUST + ["the allocator returns aligned, disjoint blocks; provenance and the actual reads/writes of the "
+                                              "unsafe code are runtime facts outside the model (partial)"],
+                "assumptions": ["partial: Lean proves the layout arithmetic the unsafe code relies on; that the code performs exactly "
+                                "those accesses is tied only by the correspondence (alignment/integrity-checking component types, arena invariant on hooked state)"]}
     if pid == "C19":
         n = 3000 if q else 2_000_000
         jobs = [{"engine": "bits", "name": f"bits-{i}", "args": ["--seed", seed * 31 + i, "--count", n // (1 if q else NSHARD_THOROUGH)]}
